@@ -294,7 +294,7 @@ def conf_requests(rng, tier, texts):
 # one defect at every rule position of a valid configuration (C14_error_anywhere_rejects_file)
 # --------------------------------------------------------------------------
 
-# (class, a rule holding the defect): the three classes of the theorem, in an action, in a condition behind `!`, `attachment`, `(`, `and` / `or`
+# (class, a rule holding the defect): the classes of the theorem, in an action, in a condition behind `!`, `attachment`, `(`, `and` / `or`
 ANYWHERE = [
     ('unknown-macro', 'match all move "${nosuch}"'),
     ('unknown-macro-in-action-list', 'match new label "l" exec stdin { "c" "${nosuch}" "d" } pass'),
@@ -303,6 +303,7 @@ ANYWHERE = [
     ('unknown-unit', 'match date > 3 foo break'),
     ('ambiguous-unit', 'match old or attachment ( date modified < 2 m ) break'),
     ('keyword-as-unit', 'match date created > 1 match break'),
+    ('exec-option-repeated', 'match all label "l" exec stdin body stdin "c"'),
 ]
 STDIN_BLOCK = 'stdin {\n\tmatch all discard\n}\n'
 STDIN_PATH_BLOCK = 'maildir { "/r/other" "/dev/stdin" } {\n\tmatch all break\n}\n'
@@ -870,7 +871,7 @@ def run(rep):
             'rule': 'C14_error_anywhere_rejects_file on the real parser: %d valid grammar-generated configurations (nested blocks, attachment '
                     'blocks, macro definitions, comments); each of %d defective rules (unknown macro in an action, in a list of an exec action, '
                     'in a header name inside ! ( and ); ${path} in isdirectory under attachment; unknown unit, ambiguous unit, keyword as unit, '
-                    'also under or / attachment / ( )) written at every rule position of every block - in front of every rule and of every '
+                    'also under or / attachment / ( ); a repeated exec option) written at every rule position of every block - in front of every rule and of every '
                     'closing brace -, and a block written stdin behind a stdin block or a maildir block with the path /dev/stdin at every pair '
                     'of positions: config_parse and Model.parseConfig must both report the first diagnostic on the line of the defect'
                     % (len(aw_ok), len(ANYWHERE)),
